@@ -512,4 +512,22 @@ theorem gen_intt_noswap_ntt_noswap {R : Type} [CommRing R] (inv : R → Option R
 example : (Loops.ntt_noswap bOps primitiveRoot [1, 4, 0, 0]).bind (Loops.intt_noswap bOps primitiveRoot) = some [4, 16, 0, 0] := by
   decide +kernel
 
+open TF.NttFn TF.NttProofs in
+/-- **base field, regenerated code**: on canonical values the regenerated `ntt` is the DFT in `ZMod P` at the powers of the
+    tabulated root and the regenerated `intt` inverts it (`ntt_b_is_dft`, `intt_ntt_b_roundtrip` transferred) -/
+theorem gen_ntt_b_is_dft (L : Nat) (hL : L ≤ 31) (x : Array Nat) (hx : x.size = 2^L) :
+    ∃ (r : Nat) (y z : Array Nat), primitiveRoot (2^L) = some r ∧
+      Loops.ntt_ntt bOps primitiveRoot x.toList = some y.toList ∧ Loops.ntt_ntt_ok bOps primitiveRoot x.toList = true ∧
+      y.size = 2^L ∧ (∀ i, i < 2^L → zvec y i = dft (2^L) ((r : ℕ) : ZMod P) (zvec x) i) ∧
+      Loops.ntt_intt bOps primitiveRoot y.toList = some z.toList ∧ Loops.ntt_intt_ok bOps primitiveRoot y.toList = true ∧
+      z.size = x.size ∧ ∀ i, zvec z i = zvec x i := by
+  obtain ⟨r, y, hr, hy, hs, hd⟩ := ntt_b_is_dft L hL x hx
+  obtain ⟨⟨y', z, hy', hz, hzs, hzv⟩, _⟩ := intt_ntt_b_roundtrip L hL x hx
+  have hyy : y' = y := by rw [hy] at hy'; exact (Option.some.inj hy').symm
+  subst hyy
+  obtain ⟨g, ok⟩ := TF.GenBridge.Ntt.run_transfer (gen_ntt_eq_model bOps primitiveRoot x) hy
+  obtain ⟨g2, ok2⟩ := TF.GenBridge.Ntt.run_transfer (gen_intt_eq_model bOps primitiveRoot y') hz
+  exact ⟨r, y', z, hr, g, ok, hs, hd, g2, ok2, hzs, hzv⟩
+example : (#[7, 0, 3, 9] : Array Nat).size = 2^2 := by decide
+
 end TF.C06
